@@ -144,10 +144,17 @@ pub fn urlrec(u: &Url) -> String {
 /// base_redirect_url: absolute URL or join; computed with the url crate directly)
 pub fn resolve(loc: &[u8], base: &Url) -> Option<Url> {
     let loc = String::from_utf8_lossy(loc);
-    match Url::parse(&loc) {
+    let u = match Url::parse(&loc) {
         Ok(u) => Some(u),
         Err(url::ParseError::RelativeUrlWithoutBase) => base.join(&loc).ok(),
         Err(_) => None,
+    }?;
+    // a target the client cannot dial (neither http nor https) is unusable: the model's `resolved`
+    // is `none` for it (the code reports it one step later, as InvalidBaseUrl, without dialling)
+    if u.scheme() == "http" || u.scheme() == "https" {
+        Some(u)
+    } else {
+        None
     }
 }
 
@@ -460,6 +467,11 @@ fn finish<B: attohttpc::body::Body>(rb: attohttpc::RequestBuilder<B>, case: &Sen
     let shared = Arc::new(Mutex::new(Shared { scripts: case.hops.iter().map(|h| h.0.clone()).collect(), next: 0, dials: vec![] }));
     let sh = shared.clone();
     verif_hooks::set_dial_factory(Box::new(move |info| {
+        // only http / https connections exist: anything else must take the production path
+        // (which refuses the scheme)
+        if info.scheme != "http" && info.scheme != "https" {
+            return None;
+        }
         let mut s = sh.lock().unwrap();
         let i = s.next;
         s.next += 1;
